@@ -10,6 +10,7 @@ __all__ = [
 ]
 
 from html.parser import HTMLParser
+import sys
 
 from typing import (
     Any,
@@ -237,12 +238,17 @@ class BeautifulSoupHTMLParser(HTMLParser, DetectsXMLParsedAsHTML):
         # HTMLParser. (http://bugs.python.org/issue13633) The bug has
         # been fixed, but removing this code still makes some
         # Beautiful Soup tests fail. This needs investigation.
-        if name.startswith("x"):
-            real_name = int(name.lstrip("x"), 16)
-        elif name.startswith("X"):
-            real_name = int(name.lstrip("X"), 16)
-        else:
-            real_name = int(name)
+        try:
+            if name.startswith("x"):
+                real_name = int(name.lstrip("x"), 16)
+            elif name.startswith("X"):
+                real_name = int(name.lstrip("X"), 16)
+            else:
+                real_name = int(name)
+        except ValueError:
+            # Not a number Python can convert (e.g. more digits than
+            # sys.int_max_str_digits allows): no such code point.
+            real_name = sys.maxunicode + 1
 
         data = None
         if real_name < 256:
